@@ -78,6 +78,9 @@ def gen_thread(rng, tid, nops, big, avoid=()):
             if "merged12_odd_height" in avoid and slot in risky:
                 dfl &= ~1
             ops.append("decomp %d %d %d %d %d %d %d" % ((rng.choice([1, 1, 2]), slot, rng.choice(PF), rng.below(16), dfl) + limits()))
+        elif r < 37:
+            # nested use: tj3Transform whose custom filter calls TurboJPEG on another instance of this thread
+            ops.append("nested 2 %d %d %d %d %d" % (rng.below(4), rng.below(2), rng.below(9), rng.below(3), rng.choice(TJXOP)))
         elif r < 41:
             xs, xd = rng.below(4), rng.below(4)
             ops.append("xform 2 %d %d %d %d %d %d" % ((xs, xd, rng.choice(TJXOP), rng.choice([0, 0, 1, 2, 8, 16, 32, 64, 1 | 16])) + limits()))
